@@ -1,6 +1,9 @@
 package c16
 
 import (
+	"strings"
+	"sync/atomic"
+	"encoding/binary"
 	"fmt"
 	"net"
 	"sync"
@@ -39,14 +42,14 @@ type ChCase struct {
 }
 
 var churnOps = []string{"join-tcp", "leave-tcp", "join-http", "leave-http", "join-mux", "leave-mux", "reg-stcp", "close-stcp", "visitor", "visitor-flood", "reg-xtcp", "close-xtcp",
-	"nathole-visitor", "relogin", "user-tcp", "reg-shared", "close-shared", "pause", "relogin-twin", "reg-limit", "user-limit", "close-limit"}
+	"nathole-visitor", "relogin", "user-tcp", "reg-shared", "close-shared", "pause", "relogin-twin", "reg-limit", "user-limit", "close-limit", "reg-udp", "user-udp", "close-udp"}
 
 func genCh(t *rapid.T) ChCase {
 	c := ChCase{TCPMux: rapid.Bool().Draw(t, "tcpmux"), Quota: rapid.SampledFrom([]int{0, 0, 1, 2}).Draw(t, "quota")}
 	n := rapid.IntRange(2, 6).Draw(t, "nworkers")
 	// most cases put several workers on the same few operations: that is where the windows are
 	theme := rapid.SampledFrom([][]string{{"join-tcp", "leave-tcp", "pause"}, {"join-http", "leave-http", "pause"}, {"join-mux", "leave-mux", "pause"}, {"reg-stcp", "close-stcp", "visitor", "visitor-flood", "reg-stcp", "close-stcp", "pause"},
-		{"reg-xtcp", "close-xtcp", "nathole-visitor"}, {"reg-shared", "close-shared", "relogin", "relogin-twin"}, {"relogin-twin", "relogin-twin", "pause"}, {"reg-limit", "user-limit", "close-limit", "reg-limit", "user-limit"}, {"join-tcp", "reg-shared", "reg-limit", "leave-tcp", "close-shared"}, churnOps}).Draw(t, "theme")
+		{"reg-xtcp", "close-xtcp", "nathole-visitor"}, {"reg-shared", "close-shared", "relogin", "relogin-twin"}, {"relogin-twin", "relogin-twin", "pause"}, {"reg-limit", "user-limit", "close-limit", "reg-limit", "user-limit"}, {"reg-udp", "user-udp", "user-udp", "user-udp", "close-udp", "reg-udp", "user-udp"}, {"join-tcp", "reg-shared", "reg-limit", "leave-tcp", "close-shared"}, churnOps}).Draw(t, "theme")
 	for i := 0; i < n; i++ {
 		l := fmt.Sprintf("w%d", i)
 		w := Worker{Rounds: rapid.SampledFrom([]int{10, 40, 120, 400, 1200}).Draw(t, l+"/rounds"), Target: rapid.IntRange(0, 1).Draw(t, l+"/target")}
@@ -115,6 +118,7 @@ func runCh(c ChCase) error {
 	groupPort := func(tg int) int { return blk.Port(fx.SlotAllow + 2 + tg) }
 	sharedPort := func(tg int) int { return blk.Port(fx.SlotAllow + 4 + tg) }
 	limitPort := func(w int) int { return blk.Port(fx.SlotAllow + 8 + w%8) }
+	udpPort := func(w int) int { return blk.Port(fx.SlotAllow + 16 + w%8) }
 	var wg, fwg sync.WaitGroup
 	stop := make(chan struct{})
 	var smu sync.Mutex
@@ -124,7 +128,7 @@ func runCh(c ChCase) error {
 		go func(wi int, w Worker) {
 			defer wg.Done()
 			user := fmt.Sprintf("w%d", wi)
-			sc, e := fx.ConnectCommon(common(), user, "", 0, fx.TagWork(user))
+			sc, e := fx.ConnectCommon(common(), user, "", 0, hostileUDPWork(fx.TagWork(user)))
 			if e != nil {
 				return
 			}
@@ -250,6 +254,17 @@ func runCh(c ChCase) error {
 							_, _ = cn.Read(make([]byte, 64))
 							cn.Close()
 						}
+					case "reg-udp":
+						_, _ = sc.NewProxy(&msg.NewProxy{ProxyName: own("udp"), ProxyType: "udp", RemotePort: udpPort(wi)}, short)
+					case "close-udp":
+						_ = sc.CloseProxy(own("udp"))
+					case "user-udp":
+						if cn, e := net.Dial("udp", fmt.Sprintf("127.0.0.1:%d", udpPort(wi))); e == nil {
+							_, _ = cn.Write([]byte("ping"))
+							_ = cn.SetReadDeadline(time.Now().Add(30 * time.Millisecond))
+							_, _ = cn.Read(make([]byte, 64))
+							cn.Close()
+						}
 					case "reg-shared":
 						_, _ = sc.NewProxy(&msg.NewProxy{ProxyName: fmt.Sprintf("shared-%d", w.Target), ProxyType: "tcp", RemotePort: sharedPort(w.Target)}, short)
 					case "close-shared":
@@ -364,4 +379,59 @@ func TestFrpsChurn(t *testing.T) {
 			}
 			return fx.Class{NonTrivial: shared, Fingerprint: fmt.Sprintf("%+v", c)}
 		}})
+}
+
+
+// hostileUDPWork: on the work connection of a udp proxy the peer owns the reply stream. Every datagram of a user is
+// answered by hand-made UDPPacket frames an honest frpc never sends - no address, null address, empty address, port out
+// of range, zone, content that is not base64, content of the wrong JSON type, other message types - and then by the
+// proper reply. Work connections of other proxies are served by next.
+func hostileUDPWork(next func(*fx.ScriptedClient, net.Conn, *msg.StartWorkConn)) func(*fx.ScriptedClient, net.Conn, *msg.StartWorkConn) {
+	bodies := []string{
+		`{"c":"cG9uZw=="}`,
+		`{"c":"cG9uZw==","r":null,"l":null}`,
+		`{"c":"cG9uZw==","r":{"IP":"","Port":0,"Zone":""}}`,
+		`{"c":"cG9uZw==","r":{"IP":"127.0.0.1","Port":-1,"Zone":""}}`,
+		`{"c":"cG9uZw==","r":{"IP":"::1","Port":99999,"Zone":"eth0"}}`,
+		`{"c":"!!! not base64 !!!","r":{"IP":"127.0.0.1","Port":9,"Zone":""}}`,
+		`{"c":"","r":{"IP":"255.255.255.255","Port":65535,"Zone":""}}`,
+		`{"r":{"IP":"127.0.0.1","Port":9,"Zone":""}}`,
+	}
+	frame := func(tb byte, body string) []byte {
+		b := make([]byte, 9, 9+len(body))
+		b[0] = tb
+		binary.BigEndian.PutUint64(b[1:], uint64(len(body)))
+		return append(b, body...)
+	}
+	var n atomic.Int64
+	return func(sc *fx.ScriptedClient, wc net.Conn, st *msg.StartWorkConn) {
+		if !strings.Contains(st.ProxyName, "-udp-") {
+			next(sc, wc, st)
+			return
+		}
+		defer wc.Close()
+		for {
+			m, err := msg.ReadMsg(wc)
+			if err != nil {
+				return
+			}
+			pkt, ok := m.(*msg.UDPPacket)
+			if !ok {
+				continue
+			}
+			k := int(n.Add(1))
+			_, _ = wc.Write(frame('u', bodies[k%len(bodies)]))
+			switch k % 5 {
+			case 1:
+				_ = msg.WriteMsg(wc, &msg.Ping{})
+			case 2:
+				_ = msg.WriteMsg(wc, &msg.NewProxy{ProxyName: "x", ProxyType: "udp"})
+			case 3:
+				_, _ = wc.Write(frame('u', `{"c":123}`)) // wrong JSON type: the server gives up on this work connection
+			}
+			if err := msg.WriteMsg(wc, pkt); err != nil {
+				return
+			}
+		}
+	}
 }
